@@ -51,6 +51,22 @@ def VErr.name : VErr → String
   | .emaxvars => "emaxvars" | .ebadtype => "ebadtype" | .ebaddim => "ebaddim" | .eunlimpos => "eunlimpos"
   | .eunlimit => "eunlimit" | .evarsize => "evarsize" | .eneg64 => "eneg64"
 
+/-- Code variants of ncvalidator.  `asIs` is the pinned source; each flag is one repair (findings C20-F3..F6).
+    The check finds out by replaying the witnesses which variant the tree follows and tells the driver. -/
+structure VCfg where
+  /-- F3: main() fails when the file is shorter than the header that was read -/
+  strictLen  : Bool
+  /-- F4: hdr_get_NON_NEG, numrecs and `begin` reject a set sign bit; vsize is read as a raw word -/
+  strictSign : Bool
+  /-- F5: an empty list must carry ABSENT or its own tag -/
+  strictTag  : Bool
+  /-- F6: a dimension id is range-checked as an unsigned 64-bit value before it is narrowed to `int` -/
+  dimid64    : Bool
+  deriving DecidableEq, Repr, Inhabited
+
+def VCfg.asIs : VCfg := ⟨false, false, false, false⟩
+def VCfg.repaired : VCfg := ⟨true, true, true, true⟩
+
 /-- reader over the rest of the file; reads past the end see zeros -/
 def VP (α : Type) : Type := Bytes → Except VErr (α × Bytes)
 
@@ -74,8 +90,34 @@ def rdU64 : VP Nat := fun s =>
 /-- the copy loops of hdr_get_name / val_get_NC_attrV, and the bytes memcmp()ed as padding -/
 def rdBytes (n : Nat) : VP Bytes := fun s => .ok (ztake n s, s.drop n)
 
-/-- hdr_get_NON_NEG -/
-def vNonNeg (ver : Nat) : VP Nat := if ver < 5 then rdU32 else rdU64
+/-- get_uint64 as it stands (any word) -/
+def rdU64raw : VP Nat := fun s => .ok (beNat (ztake 8 s), s.drop 8)
+
+/-- hdr_get_NON_NEG.  Repaired (F4): a word with the sign bit set is NC_ENOTNC. -/
+def vNonNeg (c : VCfg) (ver : Nat) : VP Nat :=
+  if c.strictSign then
+    (if ver < 5 then (do
+        let v ← rdU32
+        if v > 2147483647 then VP.fail .enotnc else pure v)
+     else (do
+        let v ← rdU64raw
+        if v ≥ 9223372036854775808 then VP.fail .enotnc else pure v))
+  else (if ver < 5 then rdU32 else rdU64)
+
+/-- the vsize field: hdr_get_NON_NEG as it stands; repaired (F4): a raw word (vsize is redundant, 2^32-1 is legal) -/
+def vVsize (c : VCfg) (ver : Nat) : VP Nat :=
+  if c.strictSign then (if ver < 5 then rdU32 else rdU64raw) else vNonNeg c ver
+
+/-- numrecs in val_get_NC: any word as it stands; repaired (F4): NON_NEG or STREAMING (all bits set) -/
+def vNumrecs (c : VCfg) (ver : Nat) : VP Nat :=
+  if c.strictSign then
+    (if ver < 5 then (do
+        let v ← rdU32
+        if v > 2147483647 ∧ v ≠ 4294967295 then VP.fail .enotnc else pure v)
+     else (do
+        let v ← rdU64raw
+        if v ≥ 9223372036854775808 ∧ v ≠ 18446744073709551615 then VP.fail .enotnc else pure v))
+  else (if ver < 5 then rdU32 else rdU64)
 
 def allZero (b : Bytes) : Bool := b.all (fun x => x == 0)
 
@@ -97,8 +139,8 @@ def vTag : VP Nat := do
   if tag = 0 ∨ tag = 10 ∨ tag = 11 ∨ tag = 12 then pure tag else VP.fail .enotnc
 
 /-- hdr_get_name: (name, padding is null).  Non-null padding is NC_ENULLPAD, not fatal. -/
-def vName (ver : Nat) : VP (Bytes × Bool) := do
-  let nchars ← vNonNeg ver
+def vName (c : VCfg) (ver : Nat) : VP (Bytes × Bool) := do
+  let nchars ← vNonNeg c ver
   let s ← rdBytes nchars
   let padding := rndup nchars 4 - nchars
   if padding > 0 then do
@@ -107,33 +149,35 @@ def vName (ver : Nat) : VP (Bytes × Bool) := do
   else pure (s, true)
 
 /-- val_get_NC_dim; `haveUnlim` is `ncap->unlimited_id != -1` -/
-def vDim (ver : Nat) (haveUnlim : Bool) : VP (Dim × VFlags) := do
-  let (name, ok) ← vName ver
-  let dimLength ← vNonNeg ver
+def vDim (c : VCfg) (ver : Nat) (haveUnlim : Bool) : VP (Dim × VFlags) := do
+  let (name, ok) ← vName c ver
+  let dimLength ← vNonNeg c ver
   if haveUnlim ∧ dimLength = 0 then VP.fail .eunlimit
   else pure ({ name := name, size := dimLength }, VFlags.ofPad ok)
 
 /-- the for-loop of val_get_NC_dimarray -/
-def vDims (ver : Nat) : Nat → Bool → VP (List Dim × VFlags)
+def vDims (c : VCfg) (ver : Nat) : Nat → Bool → VP (List Dim × VFlags)
   | 0, _ => pure ([], VFlags.ok)
   | n + 1, haveUnlim => do
-    let (d, ok) ← vDim ver haveUnlim
-    let (ds, oks) ← vDims ver n (haveUnlim || d.size == 0)
+    let (d, ok) ← vDim c ver haveUnlim
+    let (ds, oks) ← vDims c ver n (haveUnlim || d.size == 0)
     pure (d :: ds, ok.and oks)
 
 /-- the common text of val_get_NC_dimarray / _attrarray / _vararray: tag, nelems, limit, any (valid)
     tag accepted when nelems = 0, else the right tag demanded and the items read -/
-def vArray {α : Type} (ver : Nat) (tagWant maxN : Nat) (errMax : VErr) (items : Nat → VP (List α × VFlags)) :
+def vArray {α : Type} (c : VCfg) (ver : Nat) (tagWant maxN : Nat) (errMax : VErr) (items : Nat → VP (List α × VFlags)) :
     VP (List α × VFlags) := do
   let tag ← vTag
-  let n ← vNonNeg ver
+  let n ← vNonNeg c ver
   if n > maxN then VP.fail errMax
-  else if n = 0 then pure ([], ⟨true, tag == 0⟩)
+  else if n = 0 then
+    -- repaired (F5): dim_list = ABSENT | NC_DIMENSION nelems [dim ...]
+    (if c.strictTag ∧ tag ≠ 0 ∧ tag ≠ tagWant then VP.fail .enotnc else pure ([], ⟨true, tag == 0⟩))
   else if tag ≠ tagWant then VP.fail .enotnc
   else items n
 
-def vDimArray (ver : Nat) : VP (List Dim × VFlags) :=
-  vArray ver NC_DIMENSION NC_MAX_DIMS .emaxdims (fun n => vDims ver n false)
+def vDimArray (c : VCfg) (ver : Nat) : VP (List Dim × VFlags) :=
+  vArray c ver NC_DIMENSION NC_MAX_DIMS .emaxdims (fun n => vDims c ver n false)
 
 /-- val_get_nc_type -/
 def vType (ver : Nat) : VP NcType := do
@@ -146,10 +190,10 @@ def vType (ver : Nat) : VP NcType := do
     | none => VP.fail .ebadtype          -- not reachable: 1 ≤ xtype ≤ 11 here
 
 /-- val_get_NC_attr (new_NC_attr + val_get_NC_attrV) -/
-def vAttr (ver : Nat) : VP (Att × VFlags) := do
-  let (name, ok1) ← vName ver
+def vAttr (c : VCfg) (ver : Nat) : VP (Att × VFlags) := do
+  let (name, ok1) ← vName c ver
   let type ← vType ver
-  let nelems ← vNonNeg ver
+  let nelems ← vNonNeg c ver
   let nbytes := nelems * type.size
   let xsz := if nelems > 0 then xlenAttrV type nelems else 0
   let padding := xsz - nbytes
@@ -168,8 +212,8 @@ def vN {α : Type} (item : VP (α × VFlags)) : Nat → VP (List α × VFlags)
     let (xs, oks) ← vN item n
     pure (x :: xs, ok.and oks)
 
-def vAttrArray (ver : Nat) : VP (List Att × VFlags) :=
-  vArray ver NC_ATTRIBUTE NC_MAX_ATTRS .emaxatts (fun n => vN (vAttr ver) n)
+def vAttrArray (c : VCfg) (ver : Nat) : VP (List Att × VFlags) :=
+  vArray c ver NC_ATTRIBUTE NC_MAX_ATTRS .emaxatts (fun n => vN (vAttr c ver) n)
 
 /-- `(int)` of a dimid field: low 32 bits, two's complement; `none` = negative -/
 def dimidC (v : Nat) : Option Nat :=
@@ -178,29 +222,42 @@ def dimidC (v : Nat) : Option Nat :=
 
 /-- one dimid of val_get_NC_var: `if (dimid >= f_ndims) NC_EBADDIM` on the `int` value (a negative
     one passes here and is caught by compute_var_shape); the field is kept as read -/
-def vDimid (ver : Nat) (fNdims : Nat) : VP (Nat × VFlags) := do
-  let v ← vNonNeg ver
-  match dimidC v with
-  | some d => if d ≥ fNdims then VP.fail .ebaddim else pure (v, VFlags.ok)
-  | none => pure (v, VFlags.ok)
+def vDimid (c : VCfg) (ver : Nat) (fNdims : Nat) : VP (Nat × VFlags) :=
+  if c.dimid64 then do
+    -- repaired (F6): compared as an unsigned 64-bit value
+    let v ← (if ver < 5 then rdU32 else rdU64raw)
+    if v ≥ fNdims then VP.fail .ebaddim else pure (v, VFlags.ok)
+  else do
+    let v ← (if ver < 5 then rdU32 else rdU64)
+    match dimidC v with
+    | some d => if d ≥ fNdims then VP.fail .ebaddim else pure (v, VFlags.ok)
+    | none => pure (v, VFlags.ok)
 
-/-- the `begin` field -/
-def vBegin (ver : Nat) : VP Nat := if ver = 1 then rdU32 else rdU64
+/-- the `begin` field.  Repaired (F4): OFFSET is a non-negative INT (CDF-1) / INT64 (CDF-2, 5). -/
+def vBegin (c : VCfg) (ver : Nat) : VP Nat :=
+  if c.strictSign then
+    (if ver = 1 then (do
+        let v ← rdU32
+        if v > 2147483647 then VP.fail .enotnc else pure v)
+     else (do
+        let v ← rdU64raw
+        if v ≥ 9223372036854775808 then VP.fail .enotnc else pure v))
+  else (if ver = 1 then rdU32 else rdU64)
 
 /-- val_get_NC_var -/
-def vVar (ver : Nat) (fNdims : Nat) : VP (Var × VFlags) := do
-  let (name, ok1) ← vName ver
-  let ndims ← vNonNeg ver
+def vVar (c : VCfg) (ver : Nat) (fNdims : Nat) : VP (Var × VFlags) := do
+  let (name, ok1) ← vName c ver
+  let ndims ← vNonNeg c ver
   if ndims > NC_MAX_VAR_DIMS then VP.fail .emaxdims else do
-  let (dimids, _) ← vN (vDimid ver fNdims) ndims
-  let (atts, ok2) ← vAttrArray ver
+  let (dimids, _) ← vN (vDimid c ver fNdims) ndims
+  let (atts, ok2) ← vAttrArray c ver
   let xtype ← vType ver
-  let vsize ← vNonNeg ver
-  let begin_ ← vBegin ver
+  let vsize ← vVsize c ver
+  let begin_ ← vBegin c ver
   pure ({ name := name, dimids := dimids, atts := atts, xtype := xtype, vsize := vsize, begin := begin_ }, (VFlags.ofPad ok1).and ok2)
 
-def vVarArray (ver : Nat) (fNdims : Nat) : VP (List Var × VFlags) :=
-  vArray ver NC_VARIABLE NC_MAX_VARS .emaxvars (fun n => vN (vVar ver fNdims) n)
+def vVarArray (c : VCfg) (ver : Nat) (fNdims : Nat) : VP (List Var × VFlags) :=
+  vArray c ver NC_VARIABLE NC_MAX_VARS .emaxvars (fun n => vN (vVar c ver fNdims) n)
 
 /-- check_signature (main) and the magic test of val_get_NC -/
 def vMagic (file : Bytes) : Except VErr Fmt :=
@@ -211,12 +268,12 @@ def vMagic (file : Bytes) : Except VErr Fmt :=
   | _ => .error .enotnc
 
 /-- the reading part of val_get_NC after the magic -/
-def vBody (f : Fmt) : VP (Hdr × VFlags) := do
+def vBody (c : VCfg) (f : Fmt) : VP (Hdr × VFlags) := do
   let ver := f.version
-  let numrecs ← vNonNeg ver
-  let (dims, ok1) ← vDimArray ver
-  let (gatts, ok2) ← vAttrArray ver
-  let (vars, ok3) ← vVarArray ver dims.length
+  let numrecs ← vNumrecs c ver
+  let (dims, ok1) ← vDimArray c ver
+  let (gatts, ok2) ← vAttrArray c ver
+  let (vars, ok3) ← vVarArray c ver dims.length
   pure ({ fmt := f, numrecs := numrecs, dims := dims, gatts := gatts, vars := vars }, (ok1.and ok2).and ok3)
 
 /-- the shape[] loop of var_shape64 on the `int` dimids (`i` = index of the head of `ids`) -/
@@ -300,11 +357,11 @@ def vPostPass (h : Hdr) : Except VErr Info :=
               numRecVars := numRec, shapes := shapes, lens := lens }
 
 /-- val_get_NC: header, derived layout, and the flags -/
-def vGetNC (file : Bytes) : Except VErr (Hdr × Info × VFlags) :=
+def vGetNC (c : VCfg) (file : Bytes) : Except VErr (Hdr × Info × VFlags) :=
   match vMagic file with
   | .error e => .error e
   | .ok f =>
-    match vBody f (file.drop 4) with
+    match vBody c f (file.drop 4) with
     | .error e => .error e
     | .ok ((h, fl), _) =>
       match vPostPass h with
@@ -312,16 +369,19 @@ def vGetNC (file : Bytes) : Except VErr (Hdr × Info × VFlags) :=
       | .ok info => .ok (h, info, fl)
 
 /-- the validator's verdict as a word: "ok", "enullpad", or the fatal error -/
-def validateCode (file : Bytes) : String :=
-  match vGetNC file with
+def validateCode (c : VCfg) (file : Bytes) : String :=
+  match vGetNC c file with
   | .error e => e.name
-  | .ok (_, _, fl) => if fl.pad then "ok" else "enullpad"
+  | .ok (h, _, fl) => if c.strictLen ∧ file.length < h.len then "enotnc" else if fl.pad then "ok" else "enullpad"
 
 /-- exit status 0 of ncvalidator.  (The file-size tests of main() only print warnings.) -/
-def validate (file : Bytes) : Bool :=
-  match vGetNC file with
+def validate (c : VCfg) (file : Bytes) : Bool :=
+  match vGetNC c file with
   | .error _ => false
-  | .ok (_, _, fl) => fl.pad
+  | .ok (h, _, fl) =>
+    -- repaired (F3): main() compares the header size with the file size (the file-size tests further down in
+    -- main() only print warnings)
+    if c.strictLen ∧ file.length < h.len then false else fl.pad
 
 /-! ## 2. cdfdiff / ncmpidiff -/
 
@@ -380,10 +440,17 @@ structure DiffCfg where
   /-- ncmpidiff sees the record dimension with length numrecs (ncmpi_inq_dimlen);
       cdfdiff compares the stored length 0 and runs over the records of the FIRST file only -/
   recLenIsNumrecs : Bool
+  /-- repaired cdfdiff (F1): numrecs is compared in the header part and a record variable is skipped when the
+      record counts differ -/
+  cmpNumrecs : Bool
   deriving DecidableEq, Repr
 
-def cdfdiffCfg : DiffCfg := { rot := true, skipByte := false, recLenIsNumrecs := false }
-def ncmpidiffCfg : DiffCfg := { rot := false, skipByte := true, recLenIsNumrecs := true }
+def cdfdiffCfg : DiffCfg := { rot := true, skipByte := false, recLenIsNumrecs := false, cmpNumrecs := false }
+def ncmpidiffCfg : DiffCfg := { rot := false, skipByte := true, recLenIsNumrecs := true, cmpNumrecs := false }
+/-- cdfdiff with the repair of C20-F1 -/
+def cdfdiffRepaired : DiffCfg := { cdfdiffCfg with cmpNumrecs := true }
+/-- ncmpidiff with the repair of C20-F2 (`case NC_BYTE` added to the three switches) -/
+def ncmpidiffRepaired : DiffCfg := { ncmpidiffCfg with skipByte := false }
 
 inductive DiffOut where
   | crash                       -- cdfdiff: `i % nattrs` with nattrs = 0 (SIGFPE)
@@ -480,6 +547,7 @@ def varDataDiff (cfg : DiffCfg) (a b : LFile) (nm : Bytes) : Nat :=
     if v.xtype ≠ w.xtype then 0
     else if v.dims.length ≠ w.dims.length then 0
     else if (v.dims.map (fun d => dimLen cfg a.numrecs d.size)) ≠ (w.dims.map (fun d => dimLen cfg b.numrecs d.size)) then 0
+    else if cfg.cmpNumrecs ∧ v.isRec = true ∧ a.numrecs ≠ b.numrecs then 0
     else if cfg.skipByte ∧ v.xtype = .byte then 0
     else
       let nrec := if v.isRec then a.numrecs else 1
@@ -491,7 +559,8 @@ def toolDiff (cfg : DiffCfg) (a b : LFile) : DiffOut :=
   if attsCrash cfg a.gatts b.gatts || varsCrash cfg a b then .crash else
   let vd := varsDiff cfg a b
   let head := b2n (a.fmt ≠ b.fmt) + b2n (a.dims.length ≠ b.dims.length) + b2n (a.vars.length ≠ b.vars.length) +
-    b2n (a.gatts.length ≠ b.gatts.length) + attsDiff cfg a.gatts b.gatts + dimsDiff cfg a b + vd.1
+    b2n (a.gatts.length ≠ b.gatts.length) + b2n (cfg.cmpNumrecs && decide (a.numrecs ≠ b.numrecs)) +
+    attsDiff cfg a.gatts b.gatts + dimsDiff cfg a b + vd.1
   -- cdfdiff leaves by `goto fn_exit` when one file has no variable; nothing is left to compare then
   let var := vd.2 + sumNat (a.vars.map (fun v => varDataDiff cfg a b v.name))
   .counts head var
